@@ -176,6 +176,9 @@ fn nice_name(n: &[u8]) -> bool {
     n.starts_with(b"refs/")
         && n.iter().all(|b| b.is_ascii_alphanumeric() || *b == b'_' || *b == b'/')
         && n.split(|b| *b == b'/').all(|c| !c.is_empty())
+        // no `refs/X` or `refs/<cat>/X…` with an all-caps X: those are the short-name (DWIM) candidates of the
+        // pseudo ref X in `find_one_with_verified_input` / `packed::Buffer::try_find`
+        && !n.split(|b| *b == b'/').skip(1).take(2).any(is_pseudo)
 }
 fn nice_target(t: &[u8]) -> bool {
     match t.strip_prefix(b"@") {
